@@ -28,10 +28,30 @@ def main():
         print("MACHINERY-FAILURE: no check module for %s (%s)" % (pid, e))
         return 2
 
+    rec = {}
+    if a.replay:
+        import json
+        try:
+            with open(a.replay) as f:
+                rec = json.load(f)
+        except (OSError, ValueError) as e:
+            print("MACHINERY-FAILURE: cannot read replay file %s (%s)" % (a.replay, e))
+            return 2
+        if not a.tier and rec.get("tier"):
+            os.environ["VERIF_TIER"] = str(rec["tier"])
+        if a.seed is None and rec.get("seed") is not None:
+            os.environ["VERIF_SEED"] = str(rec["seed"])
+
     def go():
         chk = verdict.Check(pid, level=getattr(mod, "LEVEL", "model_checking"))
         if a.replay:
-            return mod.replay(chk, a.replay)
+            if hasattr(mod, "replay"):
+                return mod.replay(chk, a.replay)
+            # generic replay: the checks are deterministic in (tier, seed), so the recorded run is repeated with the
+            # tier and seed stored in the replay file; the recorded cases are shown first
+            print("REPLAY %s: property=%s tier=%s seed=%s, %s recorded case(s); first: %s" % (
+                a.replay, rec.get("property"), rec.get("tier"), rec.get("seed"), rec.get("count"),
+                str((rec.get("cases") or [{}])[0].get("what", ""))[:400]))
         return mod.main(chk)
 
     return verdict.main_wrapper(go)
